@@ -440,9 +440,64 @@ def m_str_index(it, argv, text):
     return StrV(s[a:b])
 
 
+def lossy_decode(it, bs):
+    """String::from_utf8_lossy on bytes that may be symbolic: the maximal-subpart rule of std's Utf8Chunks, forking on the class of each
+    symbolic byte (ASCII / lead byte kinds / continuation ranges).  -> tuple of bytes"""
+    def within(b, lo, hi):
+        if isinstance(b, int):
+            return lo <= b <= hi
+        return it.ctx.branch(t_in(b, frozenset(range(lo, hi + 1))), 'utf8class')
+    FFFD = (0xEF, 0xBF, 0xBD)
+    out = []
+    i = 0
+    n = len(bs)
+    C = (0x80, 0xBF)
+    while i < n:
+        b = bs[i]
+        if within(b, 0, 0x7F):
+            out.append(b)
+            i += 1
+            continue
+        if within(b, 0xC2, 0xDF):
+            need = [C]
+        elif within(b, 0xE0, 0xE0):
+            need = [(0xA0, 0xBF), C]
+        elif within(b, 0xE1, 0xEC) or within(b, 0xEE, 0xEF):
+            need = [C, C]
+        elif within(b, 0xED, 0xED):
+            need = [(0x80, 0x9F), C]
+        elif within(b, 0xF0, 0xF0):
+            need = [(0x90, 0xBF), C, C]
+        elif within(b, 0xF1, 0xF3):
+            need = [C, C, C]
+        elif within(b, 0xF4, 0xF4):
+            need = [(0x80, 0x8F), C, C]
+        else:
+            out.extend(FFFD)
+            i += 1
+            continue
+        k = 0
+        good = True
+        for lo, hi in need:
+            if i + 1 + k < n and within(bs[i + 1 + k], lo, hi):
+                k += 1
+            else:
+                good = False
+                break
+        if good:
+            out.extend(bs[i:i + 1 + k])
+        else:
+            out.extend(FFFD)          # one replacement character for the valid-so-far prefix of the broken sequence
+        i += 1 + k
+    return tuple(out)
+
+
 @model('String::from_utf8_lossy')
 def m_from_utf8_lossy(it, argv, text):
     bs = it.as_seq(argv[0]) if not isinstance(it.deref_all(argv[0]), StrV) else it.deref_all(argv[0]).b
+    if getattr(it, 'exact_lossy', False) and not all(isinstance(b, int) for b in bs):
+        out = lossy_decode(it, tuple(bs))
+        return EnumV('Cow', 'Owned', 1, (StrV(out),))
     if all(isinstance(b, int) for b in bs):
         s = bytes(bs).decode('utf8', errors='replace').encode('utf8')
         if s == bytes(bs):
